@@ -107,6 +107,29 @@ func zzZeroLow08(p []byte) bool {
 	return p[len(p)-1]&0x0f == 0
 }
 
+// zzSkeleton08 is the fixed transaction structure of the "nested" variants: an outer transaction
+// with two writes (put / set-child), a nested transaction with one symbolic data operation that
+// is committed or rolled back. Keys, values and the nested operation stay symbolic.
+// (3 = start, 0 = write, -1 = any data operation, -2 = commit or rollback.)
+var zzSkeleton08 = []int{3, 0, 0, 3, -1, -2}
+
+// the child variant: one symbolic operation in the outer and one in the nested transaction
+var zzChildSkeleton08 = []int{3, -1, 3, -1, -2}
+
+func zzOpKind08(nested bool, skeleton []int, s int, sfx string) int {
+	if !nested {
+		return vrt.Choice("op"+sfx, 6)
+	}
+	switch k := skeleton[s]; k {
+	case -1:
+		return vrt.Choice("op"+sfx, 3)
+	case -2:
+		return 4 + vrt.Choice("op"+sfx, 2)
+	default:
+		return k
+	}
+}
+
 // ZZ_C08_overlay: a symbolic sequence of put / delete / clear-prefix / start / commit / rollback
 // on the main storage; after every operation a symbolic get and next-key agree with the
 // reference overlay semantics, and after committing everything the contents and root are those of
@@ -125,10 +148,14 @@ func ZZ_C08_overlay() {
 	stack := []*zzRef08{ref}
 	top := func() *zzRef08 { return stack[len(stack)-1] }
 	nops := vrt.Param("ops", 3)
+	nested := vrt.Param("nested", 0) == 1 || zzForceNested08
+	if nested {
+		nops = len(zzSkeleton08)
+	}
 	kfZeroLow := false // some clear-prefix so far ran directly on the trie with a zero-low-nibble prefix (known finding T3)
 	for s := 0; s < nops; s++ {
 		sfx := string(rune('0' + s))
-		switch vrt.Choice("op"+sfx, 6) {
+		switch zzOpKind08(nested, zzSkeleton08, s, sfx) {
 		case 0:
 			k, v := zzKey08("k"+sfx, 1, ml), vrt.Bytes("v"+sfx, 1)
 			vrt.Assert("put_ok", ts.Put(k, v) == nil)
@@ -156,7 +183,7 @@ func ZZ_C08_overlay() {
 			ts.RollbackTransaction()
 			stack = stack[:len(stack)-1]
 		}
-		if s != nops-1 && vrt.Param("readeach", 0) == 0 {
+		if s != nops-1 && vrt.Param("readeach", 0) == 0 && !(nested && s == 5) {
 			continue // reads after the last operation only (shorter sequences are covered by smaller "ops")
 		}
 		q := zzKey08("q"+sfx, 1, ml)
@@ -199,14 +226,45 @@ func ZZ_C08_child() {
 	ts := NewTrieState(base)
 	stack := []*zzRef08{ref}
 	top := func() *zzRef08 { return stack[len(stack)-1] }
+	check := func(tag string) {
+		q := zzKey08("q"+tag, 1, 1)
+		want := []byte(nil)
+		if i := top().find(q); i >= 0 {
+			want = top().vals[i]
+		}
+		got, err := ts.GetChildStorage(keyToChild, q)
+		if err != nil {
+			got = nil // a missing child trie reads as absent
+		}
+		vrt.Observe("child_get_"+tag, got == nil, want == nil, err != nil)
+		vrt.Assert("child_get_matches_overlay", zzSame08(got, want))
+		keys, err := ts.GetKeysWithPrefixFromChild(keyToChild, []byte{})
+		if err != nil {
+			keys = nil
+		}
+		vrt.Observe("child_keys_"+tag, len(keys), len(top().keys))
+		vrt.Assert("child_keys_count", len(keys) == len(top().keys))
+		for _, k := range top().keys {
+			found := false
+			for _, g := range keys {
+				found = vrt.Or(found, vrt.BytesEq(g, k))
+			}
+			vrt.Assert("child_keys_complete", found)
+		}
+	}
 	nops := vrt.Param("ops", 3)
 	// known finding D1: the child was deleted in a still open transaction and written again
 	// afterwards; killed[d] = the child was deleted while d transactions were open (d >= 1)
 	killed := []bool{false}
 	kfSetAfterKill := false
+	nested := vrt.Param("nested", 0) == 1 || zzForceNested08
+	if nested {
+		nops = len(zzChildSkeleton08)
+	}
 	for s := 0; s < nops; s++ {
 		sfx := string(rune('0' + s))
-		switch vrt.Choice("op"+sfx, 6) {
+
+		switch zzOpKind08(nested, zzChildSkeleton08, s, sfx) {
 		case 0:
 			k, v := zzKey08("k"+sfx, 1, 1), vrt.Bytes("v"+sfx, 1)
 			vrt.Assert("set_ok", ts.SetChildStorage(keyToChild, k, v) == nil)
@@ -241,32 +299,6 @@ func ZZ_C08_child() {
 			killed = killed[:len(killed)-1]
 		}
 	}
-	check := func(tag string) {
-		q := zzKey08("q"+tag, 1, 1)
-		want := []byte(nil)
-		if i := top().find(q); i >= 0 {
-			want = top().vals[i]
-		}
-		got, err := ts.GetChildStorage(keyToChild, q)
-		if err != nil {
-			got = nil // a missing child trie reads as absent
-		}
-		vrt.Observe("child_get_"+tag, got == nil, want == nil, err != nil)
-		vrt.Assert("child_get_matches_overlay", zzSame08(got, want))
-		keys, err := ts.GetKeysWithPrefixFromChild(keyToChild, []byte{})
-		if err != nil {
-			keys = nil
-		}
-		vrt.Observe("child_keys_"+tag, len(keys), len(top().keys))
-		vrt.Assert("child_keys_count", len(keys) == len(top().keys))
-		for _, k := range top().keys {
-			found := false
-			for _, g := range keys {
-				found = vrt.Or(found, vrt.BytesEq(g, k))
-			}
-			vrt.Assert("child_keys_complete", found)
-		}
-	}
 	check("a")
 	for len(stack) > 1 {
 		ts.CommitTransaction()
@@ -275,4 +307,18 @@ func ZZ_C08_child() {
 	}
 	check("b")
 	vrt.Reach("end")
+}
+
+var zzForceNested08 bool
+
+// ZZ_C08_overlay_nested / ZZ_C08_child_nested: the same harnesses over the fixed nested
+// transaction structure zzSkeleton08 (longer sequences than the free-form variants reach).
+func ZZ_C08_overlay_nested() {
+	zzForceNested08 = true
+	ZZ_C08_overlay()
+}
+
+func ZZ_C08_child_nested() {
+	zzForceNested08 = true
+	ZZ_C08_child()
 }
